@@ -43,7 +43,7 @@ MODE = 'nrt'
 SHARDS = {'quick': 2, 'thorough': 16}
 
 RULE = (
-    'history stage: a case is a list of 3-16 ops plus an allocator tie-break '
+    'history stage: a case is a list of 5-18 ops plus an allocator tie-break '
     'tape. Ops: Synth via __init__/new_paused/grain/after/before/head/tail/'
     'replace(same_id) and Group/ParGroup via __init__/after/before/head/tail/'
     'replace with every spelling of the five add actions and targets None/'
@@ -61,7 +61,7 @@ RULE = (
     'BaseException) before the k-th inner op, nested blocks caught inside or '
     'propagating through the outer block. Objects are addressed by index '
     'modulo the live population, so every op is applicable; each case starts '
-    'with 2-5 creations. Every op is compared with the reference model, every '
+    'with a node, a buffer, a control bus and 1-4 further creations. Every op is compared with the reference model, every '
     'wire message validated against the command reference table, ids against '
     'the id model, allocators drained at the end. Non-trivial = the history '
     'has a bind block holding >= 2 commands, or a free_all over >= 2 live '
@@ -448,6 +448,17 @@ def match(exp, act, i=0, j=0):
     if j < len(act) and same(e, act[j]):
         return match(exp, act, i + 1, j + 1)
     return None
+
+
+def show_exp_items(exp):
+    """Alt replaced by its first (conforming) alternative."""
+    out = []
+    for e in exp:
+        if isinstance(e, Alt):
+            out.extend(e.seqs[0][0])
+        else:
+            out.append(e)
+    return out
 
 
 def show_exp(exp):
@@ -1452,7 +1463,8 @@ class Run:
                           f'{where}: block raised but '
                           f'{[c.raw for c in calls]} reached the interface')
             return
-        ncmd = len(show_exp(sink))
+        ncmd = sum(len(e.msgs) if isinstance(e, Perm) else 1
+                   for e in show_exp_items(sink))
         self.labels.add(f'bind_len_{min(ncmd, 6)}')
         if ncmd >= 2:
             self.nontrivial = True
@@ -1461,12 +1473,8 @@ class Run:
                       f'{where}: {len(calls)} interface calls '
                       f'{[(c.kind, c.raw) for c in calls]}')
             return
-        if not calls and ncmd:
-            self.fail('bind_nothing_sent', f'{where}: block with {ncmd} '
-                      'commands exited normally, nothing reached the '
-                      'interface')
-            return
-        self.compare(sink, calls, where, 'bind_bundle_mismatch')
+        self.compare(sink, calls, where,
+                     'bind_bundle_mismatch' if calls else 'bind_nothing_sent')
 
     def bind_block(self, inner, exc, sink, where, outer_addr, depth):
         """Runs `with S.bind():` around inner ops. Returns 'ok' | 'raised'
@@ -1666,6 +1674,12 @@ FRAMES = st.sampled_from([1, 8, 64, 512])
 NUMS = st.lists(NUM, min_size=1, max_size=4)
 
 
+def _u(*alts):
+    """Uniform choice among alternatives that is not flattened into an
+    enclosing one_of."""
+    return st.sampled_from(range(len(alts))).flatmap(lambda i: alts[i])
+
+
 def t(*xs):
     return st.tuples(*[x if isinstance(x, st.SearchStrategy) else st.just(x)
                        for x in xs]).map(list)
@@ -1683,7 +1697,7 @@ GROUP = t('group', st.sampled_from(['Group', 'Group', 'ParGroup']),
                            'tail', 'replace']), TARGET, ACTION)
 BUSARG = st.one_of(t('bus', K), t('bus', K), t('idx', K, st.integers(0, 3)),
                    st.just(-1))
-NODEOP = st.one_of(
+NODEOP = _u(
     t('set', K, pairs_flat(VAL, 1, 3)),
     t('set', K, pairs_flat(VAL, 1, 3)),
     t('setn', K, st.lists(st.tuples(CTL, st.one_of(
@@ -1715,7 +1729,7 @@ BUFNEW = st.one_of(
 )
 BUFS_DEFAULT_SERVER = t('bufs', st.integers(1, 3), FRAMES, 1, False, None)
 SMALL = st.integers(0, 7)
-BUFOP = st.one_of(
+BUFOP = _u(
     t('bop', K, 'zero', COMP),
     t('bop', K, 'set', st.lists(st.tuples(SMALL, NUM).map(list), min_size=1,
                                 max_size=3)),
@@ -1750,7 +1764,7 @@ BUFFREE = st.one_of(t('bfree', K, COMP), t('bfree', K, COMP),
 BUFFREEALL = t('bfree_all', FLAG)
 BUSNEW = st.one_of(t('bus', 'control', st.integers(1, 4), FLAG),
                    t('bus', 'audio', st.integers(1, 4), FLAG))
-BUSOP = st.one_of(
+BUSOP = _u(
     t('cop', K, 'set', NUMS), t('cop', K, 'setn', NUMS),
     t('cop', K, 'set_at', st.integers(0, 3), NUMS),
     t('cop', K, 'setn_at', st.integers(0, 3), NUMS),
@@ -1759,17 +1773,25 @@ BUSOP = st.one_of(
     t('cop', K, 'fill', NUM, st.integers(0, 3)),
     t('cop', K, 'clear'),
     t('busfree', st.sampled_from(['control', 'audio']), K),
+    t('busfree', st.sampled_from(['control', 'audio']), st.integers(0, 1)),
 )
 DEFOP = t('def_send', st.sampled_from([None, 'sync', 'nfree']))
 
-PLAIN_OP = st.one_of(
-    SYNTH, SYNTH, SYNTH, GROUP, GROUP, NODEOP, NODEOP, NODEOP, NODEOP,
-    BUFNEW, BUFNEW, BUFOP, BUFOP, BUFOP, BUFFREE, BUFFREE, BUSNEW, BUSOP,
-    BUSOP, DEFOP,
-    # rarer: ops that meet known deviations (kept so they stay reproduced
-    # while the search continues behind them)
-    st.one_of(BUFFREEALL, BUFFREEALL, BUFFREEALL, BUFCUE, BUFCUE,
-              SYNTH_DICT_ARRAY, BUFS_DEFAULT_SERVER),
+def weighted(*pairs):
+    """Explicit weights (st.one_of flattens nested alternatives, which
+    makes repetition a poor way to weight)."""
+    idx = [i for i, (w, _) in enumerate(pairs) for _ in range(w)]
+    strats = [s_ for _, s_ in pairs]
+    return st.sampled_from(idx).flatmap(lambda i: strats[i])
+
+
+PLAIN_OP = weighted(
+    (32, NODEOP), (14, BUFOP), (10, SYNTH), (9, BUSOP), (7, BUFNEW),
+    (6, BUFFREE), (5, GROUP), (5, BUSNEW), (1, DEFOP),
+    # ops that meet known deviations: kept (so that they stay reproduced)
+    # but rare (so that the search goes on behind them)
+    (3, BUFFREEALL), (1, BUFCUE), (1, st.one_of(SYNTH_DICT_ARRAY,
+                                                BUFS_DEFAULT_SERVER)),
 )
 EXC = st.one_of(
     st.none(), st.none(),
@@ -1790,19 +1812,24 @@ NESTED_BIND = st.tuples(st.just('bind'),
                         EXC).map(_fix_exc)
 BIND = st.tuples(
     st.just('bind'),
-    st.lists(st.one_of(PLAIN_OP, PLAIN_OP, PLAIN_OP, PLAIN_OP, PLAIN_OP,
-                       NESTED_BIND), min_size=0, max_size=6),
+    st.lists(weighted((6, PLAIN_OP), (1, NESTED_BIND)), min_size=0,
+             max_size=6),
     EXC).map(_fix_exc)
 
-CREATE = st.one_of(SYNTH, GROUP, BUFNEW, BUSNEW)
+PRE_BUF = ['buf', 'new', 64, 1, True, None]
+PRE_BUS = ['bus', 'control', 3, True]
+NODE_CREATE = weighted((3, SYNTH), (2, GROUP))
+CREATE = weighted((3, SYNTH), (2, GROUP), (3, BUFNEW), (3, BUSNEW))
 
 
 def history_strategy():
     return st.fixed_dictionaries({
         'ops': st.tuples(
-            st.lists(CREATE, min_size=2, max_size=5),
-            st.lists(st.one_of(PLAIN_OP, PLAIN_OP, PLAIN_OP, BIND),
-                     min_size=1, max_size=11)).map(lambda p: p[0] + p[1]),
+            NODE_CREATE,
+            st.lists(CREATE, min_size=1, max_size=4),
+            st.lists(weighted((4, PLAIN_OP), (1, BIND)),
+                     min_size=1, max_size=11)).map(
+            lambda p: [p[0], PRE_BUF, PRE_BUS] + p[1] + p[2]),
         'tape': st.lists(st.integers(0, 7), min_size=0, max_size=6),
     })
 
@@ -1885,13 +1912,14 @@ def classify_known(stage, case, viol):
         o[0] == 'synth' and o[2] and o[2][0] == 'dict' and any(
             isinstance(p[1], list) and p[1][0] in ('l', 't')
             for p in o[2][1]) for o in ops)
+    # one root cause, several symptoms: the nested sequence reaches the
+    # encoder / the size arithmetic as if it were a completion message, a
+    # bundle or an unsupported type
     if dict_array and (
             kind == 'dict_array_value_not_embedded' or (
-                kind == 'sc3_raised:ValueError@base/_oscinterface.py:'
-                        '_build_msg'
-                and 'lists within messages must be valid' in viol.detail)
-            or (kind == 'sc3_raised:ValueError@base/_osclib.py:_get_arg_type'
-                and "<class 'tuple'>" in viol.detail)):
+                kind.startswith('sc3_raised:') and kind.split('@')[-1].split(
+                    ':')[0] in ('base/_oscinterface.py', 'base/_osclib.py',
+                                'base/netaddr.py'))):
         return 'dict_args_array_value_not_embedded'
     if kind == 'sc3_raised:AttributeError@synth/buffer.py:new_consecutive' \
             and any(o[0] == 'bufs' and o[4] is False for o in ops):
